@@ -13,6 +13,7 @@
      [op |-> "split2", s]                   two consumers of one split, joined by when_all and summed
      [op |-> "when_all", a, b]              both values -> sum; otherwise the first non-value signal:
                                             one of the children's errors / stopped
+     [op |-> "when_all_vector", a, b]       the same for a std::vector of senders
    Den(t) = the set of completion signals the composition may deliver (a set only because when_all
    with two failing children may report either).  Exactly one signal of Den(t) must reach the
    receiver; [ch, v] with ch \in {"value","error","stopped"}.                                 *)
@@ -42,7 +43,7 @@ Den(t) ==
       [] t.op = "let_error" -> {ApplyLetError(t.h, r) : r \in Den(t.s)}
       [] t.op \in {"continues_on", "ensure_started", "split1", "drop_op_state"} -> Den(t.s)
       [] t.op = "split2" -> {IF r.ch = "value" THEN Val(2 * r.v) ELSE r : r \in Den(t.s)}
-      [] t.op = "when_all" ->
+      [] t.op \in {"when_all", "when_all_vector"} ->
             LET A == Den(t.a)  B == Den(t.b) IN
             UNION {{IF ra.ch = "value" /\ rb.ch = "value" THEN Val(ra.v + rb.v)
                     ELSE IF ra.ch = "value" THEN rb
@@ -60,7 +61,15 @@ Unary(S) ==
     \cup {[op |-> "let_value", g |-> g, s |-> s] : g \in {"plus10", "tofail", "throw2"}, s \in S}
     \cup {[op |-> "let_error", h |-> h, s |-> s] : h \in {"recover", "refail"}, s \in S}
     \cup {[op |-> o, s |-> s] : o \in {"continues_on", "ensure_started", "split1", "split2", "drop_op_state"}, s \in S}
+\* when_all_vector asks its (single) child sender type whether it can send stopped; the type-erased stages
+\* the conformance run builds terms from declare that they cannot, so its children are stop-free terms
+RECURSIVE NoStop(_)
+NoStop(x) == CASE x.op = "stop" -> FALSE
+               [] x.op \in {"just", "fail"} -> TRUE
+               [] x.op \in {"when_all", "when_all_vector"} -> NoStop(x.a) /\ NoStop(x.b)
+               [] OTHER -> NoStop(x.s)
 Binary(S, T) == {[op |-> "when_all", a |-> a, b |-> b] : a \in S, b \in T}
+                \cup {[op |-> "when_all_vector", a |-> a, b |-> b] : a \in {x \in S : NoStop(x)}, b \in {x \in T : NoStop(x)}}
 T1 == Leaves
 T2 == T1 \cup Unary(T1) \cup Binary(T1, T1)
 \* depth 3: every unary adaptor over every depth-2 term, and when_all of depth-2 terms with leaves
